@@ -1,7 +1,7 @@
 #!/bin/bash
 # Apply every seeded change / own mutant to /repo in turn, run the quick check of its property, undo it.
 # Writes one line per change to stdout: <name> <property> <CAUGHT|MISSED|ERROR> <seconds>
-cd /verif
+cd "$(dirname "$0")/.."
 for d in seeded/*/ mutants/*.diff; do
   if [ -d "$d" ]; then
     name=$(basename $d); patch=$d/patch.diff
